@@ -21,7 +21,7 @@
 From Coq Require Import List ZArith NArith QArith Bool.
 Import ListNotations.
 Require Import UPV.Model.Stn UPV.Proofs.Stn_proofs UPV.Proofs.Stn_termination.
-Require Import UPV.Planning.StnPlan UPV.Proofs.StnPlan_proofs.
+Require Import UPV.Planning.StnPlan UPV.Proofs.StnPlan_proofs UPV.Proofs.StnPlan_eps.
 
 (* (1) the abstract conversion lemma: for EVERY list of events sorted by time (each event = start of its generating
    step + its skew) and EVERY forward edge list, the original start times and durations satisfy all generated
@@ -95,6 +95,45 @@ Theorem C26_back_times_least_solution :
 Proof. exact back_times_solve. Qed.
 Print Assumptions C26_back_times_least_solution.
 
+(* (6) the gap hypothesis is a THEOREM for the epsilon that _convert_to_stn chooses when problem.epsilon is None
+   (a tenth of plan.extract_epsilon(problem), at most 1/1000): every event time is a member of the time set of
+   extract_epsilon shifted by 0, +eps or -eps, and different members are at least 10 eps apart.
+   [mock_end_ok]: timed effects / goals anchored at GLOBAL_END have a delay <= 0. *)
+Theorem C26_default_epsilon_gap_ok :
+  forall effs conds plan xe,
+    mock_end_ok (mock_step effs conds) = true ->
+    extract_epsilon (mock_step effs conds) plan = Some xe ->
+    gap_ok (choose_eps None (Some xe)) (plan_events (choose_eps None (Some xe)) (mock_step effs conds) plan) = true.
+Proof. exact default_eps_gap_ok. Qed.
+Print Assumptions C26_default_epsilon_gap_ok.
+
+(* ... and when extract_epsilon answers None (every time of the plan is 0), for epsilon = 1/1000 *)
+Theorem C26_default_epsilon_gap_ok_all_zero :
+  forall effs conds plan,
+    mock_end_ok (mock_step effs conds) = true ->
+    extract_epsilon (mock_step effs conds) plan = None ->
+    (forall q, In q (0 :: mock_delays (mock_step effs conds) ++ flat_map step_times plan) -> 0 <= q) ->
+    gap_ok (choose_eps None None) (plan_events (choose_eps None None) (mock_step effs conds) plan) = true.
+Proof. exact default_eps_gap_ok_none. Qed.
+Print Assumptions C26_default_epsilon_gap_ok_all_zero.
+
+(* (7) THE FORWARD DIRECTION FOR THE DEFAULT EPSILON: no hypothesis about epsilon left *)
+Theorem C26_forward_conversion_default_epsilon :
+  forall effs conds plan edges xe,
+    mock_end_ok (mock_step effs conds) = true ->
+    extract_epsilon (mock_step effs conds) plan = Some xe ->
+    times_nonneg plan = true ->
+    let eps := choose_eps None (Some xe) in
+    edges_forward (length (plan_events eps (mock_step effs conds) plan)) edges = true ->
+    let cs := flatten (conv_constraints eps (mock_step effs conds) plan edges) in
+    (forall c, In c cs -> sat_pcon (orig_time plan) c) /\
+    solution (orig_time plan) (init_adds cs) /\
+    (exists s, convert_to_stn (enough_fuel (init_adds cs)) eps (mock_step effs conds) plan edges = Some s) /\
+    (forall fuel s, convert_to_stn fuel eps (mock_step effs conds) plan edges = Some s ->
+       check_stn s = true /\ forall c, In c (flatten (plan_constraints s)) -> sat_pcon (orig_time plan) c).
+Proof. exact forward_conversion_default_eps. Qed.
+Print Assumptions C26_forward_conversion_default_epsilon.
+
 (* THE FULL PROPERTY, for a notion [valid] of plan validity (the reference temporal semantics tt_valid of C05 for a
    fixed problem) and the edges [deorder plan] produced by the deordering: the STN plan is consistent, the original
    times satisfy its constraints, and the re-timed plan is still valid.  The last conjunct is NOT proved: it is
@@ -127,6 +166,24 @@ Theorem C26_roundtrip_partial :
     (forall x, model_of s x <= orig_time plan x).
 Proof. exact roundtrip_partial. Qed.
 Print Assumptions C26_roundtrip_partial.
+
+(* An explicit problem.epsilon E that the plan respects in the library's own sense (extract_epsilon >= E, the test of
+   correct_plan_generation_result) does NOT imply the gap hypothesis: the auxiliary event of an open interval bound sits
+   at bound +/- E and may be closer than E to a real event.  The statement one would like ... *)
+Definition C26_conformant_epsilon_goal : Prop :=
+  forall E xe effs conds plan edges,
+    extract_epsilon (mock_step effs conds) plan = Some xe -> E <= xe -> 0 < E ->
+    times_nonneg plan = true ->
+    edges_forward (length (plan_events E (mock_step effs conds) plan)) edges = true ->
+    forall c, In c (flatten (conv_constraints E (mock_step effs conds) plan edges)) -> sat_pcon (orig_time plan) c.
+
+(* ... is false of the faithful model (open finding C26-explicit-epsilon-open-interval; witness found by the harness,
+   where the implementation agrees with the model): E = 1/4; B at 0 makes x true; A at 1 for 4 needs x over
+   (start, end]; C at 1 + 7/16 reads and writes x.  Events: B, A.start + E = 5/4, C = 23/16, A.end; the deordering
+   orders them in a chain; the generated bound  C - A.start >= E + E = 1/2  is violated by 7/16. *)
+Theorem C26_conformant_epsilon_refuted : ~ C26_conformant_epsilon_goal.
+Proof. exact conformant_epsilon_refuted. Qed.
+Print Assumptions C26_conformant_epsilon_refuted.
 
 (* non-vacuity: a durative step with a left-open condition over (start, end] and an effect at its end, an
    instantaneous step simultaneous with that end, a later instantaneous step, a timed effect at 1; edges including a
